@@ -156,6 +156,8 @@ type NodeBoard struct {
 	// FailSend, if set, is returned by Send before anything is appended.
 	FailSend error
 	OnEffect func(op string, n int)
+	// OnRead, if set, sees every GetMessages result.
+	OnRead func(offset uint64, msgs []storage.Message)
 }
 
 func (nb *NodeBoard) SetGate(g Gate) {
@@ -208,6 +210,12 @@ func (nb *NodeBoard) GetMessages(offset uint64) ([]storage.Message, error) {
 			}
 		}
 		msgs = out
+	}
+	nb.mu.Lock()
+	rd := nb.OnRead
+	nb.mu.Unlock()
+	if rd != nil {
+		rd(offset, msgs)
 	}
 	return msgs, nil
 }
